@@ -223,15 +223,13 @@ theorem merge_at_output
     (hw' : GraphWF inits inputs (mOutputs inits inputs outputs vis outs) (mVis inits inputs outputs vis outs)
       quant outs)
     {n : String} (hd : n ∈ mDeclared inits outs) (hi : n ∉ inputs.map (·.name))
-    {vo : ValueInfoP} (hvo : outputs.find? (fun v => v.name = n) = some vo) :
+    {vo : ValueInfoP} (hvom : vo ∈ outputs) (hvon : vo.name = n) :
     findVI (mVis inits inputs outputs vis outs) n = none ∧
     ((findVI vis n = none ∧ mergeOutVI (mDeclared inits outs) (inputs.map (·.name)) vis vo = vo) ∨
      (∃ vi, findVI vis n = some vi ∧ wfVI vi = true ∧
         mergeOutVI (mDeclared inits outs) (inputs.map (·.name)) vis vo =
           { vo with metadata :=
               entriesOfDict (dictUpdate (dictOfEntries vi.metadata) (dictOfEntries vo.metadata)) })) := by
-  have hvon : vo.name = n := by simpa using List.find?_some hvo
-  have hvom : vo ∈ outputs := List.mem_of_find?_eq_some hvo
   have hnout : n ∈ outputs.map (·.name) := by rw [← hvon]; exact List.mem_map_of_mem hvom
   have hnone : findVI (mVis inits inputs outputs vis outs) n = none := by
     rw [findVI_none_iff]
@@ -288,7 +286,32 @@ theorem outUpd_eq (v : IRValue) :
       | some vo => applyInfoT v vo
       | none => v := rfl
 
-/-- the value of a declared, non-input name after the output phase is the same in both graphs -/
+/-- entries that agree in type / doc string and whose metadata leaves the same dict on top of the
+value's: applying them one after the other is applying the first -/
+theorem foldl_applyInfoT_same (w : IRValue) (g1 : ValueInfoP) : ∀ rest : List ValueInfoP,
+    (∀ g ∈ rest, g.type = g1.type ∧ g.doc = g1.doc ∧
+      dictUpdate w.mprops (dictOfEntries g.metadata) = dictUpdate w.mprops (dictOfEntries g1.metadata)) →
+    rest.foldl applyInfoT (applyInfoT w g1) = applyInfoT w g1
+  | [], _ => rfl
+  | g :: rest, h => by
+    obtain ⟨h1, h2, h3⟩ := h g (by simp)
+    have hstep : applyInfoT (applyInfoT w g1) g = applyInfoT w g1 := by
+      simp only [applyInfoT, h1, h2]
+      rw [← h3, dictUpdate_idem _ _ (nodup_dkeys_dictOfEntries _)]
+    rw [List.foldl_cons, hstep]
+    exact foldl_applyInfoT_same w g1 rest (fun g' hg' => h g' (List.mem_cons_of_mem _ hg'))
+
+theorem filter_map_names (M : ValueInfoP → ValueInfoP) (hM : ∀ vo, (M vo).name = vo.name) (n : String)
+    (l : List ValueInfoP) :
+    (l.map M).filter (fun vi => vi.name = n) = (l.filter (fun vi => vi.name = n)).map M := by
+  induction l with
+  | nil => rfl
+  | cons x xs ih =>
+    simp only [List.map_cons, List.filter_cons, hM]
+    split <;> simp [ih]
+
+/-- the value of a declared, non-input name after the output phase is the same in both graphs (the
+entries of the unmerged graph may repeat a name, E4, as long as the merged ones are identical) -/
 theorem final_value_eq
     (hw' : GraphWF inits inputs (mOutputs inits inputs outputs vis outs) (mVis inits inputs outputs vis outs)
       quant outs)
@@ -300,9 +323,11 @@ theorem final_value_eq
     (hXs : ∀ V V' vi, findVI V n = some vi → wfVI vi = true → findVI V' n = none →
       (X V').name = (X V).name ∧ (X V').quant = (X V).quant ∧ (X V').const = (X V).const ∧
       (X V).mprops = dictOfEntries vi.metadata ∧ (X V').mprops = []) :
-    outUpd outputs (X vis) =
+    outUpdAll outputs (X vis) =
       outUpd (mOutputs inits inputs outputs vis outs) (X (mVis inits inputs outputs vis outs)) := by
-  rw [outUpd_mOutputs, outUpd_eq, hXn, hXn]
+  rw [outUpd_mOutputs]
+  unfold outUpdAll
+  rw [hXn, hXn]
   cases hf : outputs.find? (fun vi => vi.name = n) with
   | none =>
     have hnout : n ∉ outputs.map (·.name) := by
@@ -310,14 +335,77 @@ theorem final_value_eq
       obtain ⟨vo, hvo, hvon⟩ := List.mem_map.1 hm
       rw [List.find?_eq_none] at hf
       exact hf vo hvo (by simpa using hvon)
+    have : outputs.filter (fun vi => vi.name = n) = [] := by
+      rw [List.filter_eq_nil_iff]
+      intro a ha
+      exact List.find?_eq_none.1 hf a ha
+    rw [this]
     exact hXc _ _ (findVI_mVis_of_not_output hnout).symm
   | some vo =>
-    obtain ⟨hnone, hcase⟩ := merge_at_output hw' hd hi hf
+    have hvon : vo.name = n := by simpa using List.find?_some hf
+    have hvom : vo ∈ outputs := List.mem_of_find?_eq_some hf
+    -- the group of entries named `n` starts with `vo`
+    obtain ⟨rest, hgroup, hrest⟩ : ∃ rest, outputs.filter (fun vi => vi.name = n) = vo :: rest ∧
+        ∀ g ∈ rest, g ∈ outputs ∧ g.name = n := by
+      clear hw' hvom
+      induction outputs with
+      | nil => cases hf
+      | cons x xs ih =>
+        rw [List.find?_cons] at hf
+        by_cases hx : x.name = n
+        · simp only [hx, decide_true, Option.some.injEq] at hf
+          subst hf
+          refine ⟨xs.filter (fun vi => vi.name = n), by simp [List.filter_cons, hx], ?_⟩
+          intro g hg
+          obtain ⟨g1, g2⟩ := List.mem_filter.1 hg
+          exact ⟨List.mem_cons_of_mem _ g1, by simpa using g2⟩
+        · simp only [hx, decide_false] at hf
+          obtain ⟨rest, h1, h2⟩ := ih hf
+          refine ⟨rest, by simp [List.filter_cons, hx, h1], fun g hg => ?_⟩
+          exact ⟨List.mem_cons_of_mem _ (h2 g hg).1, (h2 g hg).2⟩
+    rw [hgroup, List.foldl_cons]
+    -- the merged entries of one name are identical
+    have hsame : ∀ g ∈ rest, mergeOutVI (mDeclared inits outs) (inputs.map (·.name)) vis g
+        = mergeOutVI (mDeclared inits outs) (inputs.map (·.name)) vis vo := by
+      intro g hg
+      apply hw'.consOut _ (List.mem_map_of_mem (hrest g hg).1) _ (List.mem_map_of_mem hvom)
+      rw [mergeOutVI_name, mergeOutVI_name, (hrest g hg).2, hvon]
+    have htd : ∀ g ∈ rest, g.type = vo.type ∧ g.doc = vo.doc := by
+      intro g hg
+      have e := hsame g hg
+      have a := mergeOutVI_type (mDeclared inits outs) (inputs.map (·.name)) vis g
+      have b := mergeOutVI_type (mDeclared inits outs) (inputs.map (·.name)) vis vo
+      exact ⟨by rw [← a.1, e, b.1], by rw [← a.2, e, b.2]⟩
+    obtain ⟨hnone, hcase⟩ := merge_at_output hw' hd hi hvom hvon
     rcases hcase with ⟨hvn, hM⟩ | ⟨vi, hvi, hwfvi, hM⟩
-    · simp only [hM]
+    · -- no `value_info` entry: nothing is merged, the entries themselves are identical
+      have hid : ∀ g ∈ rest, g = vo := by
+        intro g hg
+        obtain ⟨_, hcase'⟩ := merge_at_output hw' hd hi (hrest g hg).1 (hrest g hg).2
+        rcases hcase' with ⟨_, hM'⟩ | ⟨vi, hvi, _, _⟩
+        · rw [← hM', hsame g hg, hM]
+        · rw [hvn] at hvi; cases hvi
+      rw [foldl_applyInfoT_same (X vis) vo rest (fun g hg => by rw [hid g hg]; exact ⟨rfl, rfl, rfl⟩)]
+      simp only [hM]
       rw [hXc vis (mVis inits inputs outputs vis outs) (by rw [hvn, hnone])]
-    · simp only [hM]
-      obtain ⟨e1, e2, e3, e4, e5⟩ := hXs vis (mVis inits inputs outputs vis outs) vi hvi hwfvi hnone
+    · obtain ⟨e1, e2, e3, e4, e5⟩ := hXs vis (mVis inits inputs outputs vis outs) vi hvi hwfvi hnone
+      have hnd : ∀ g : ValueInfoP, (dkeys (dictUpdate (dictOfEntries vi.metadata) (dictOfEntries g.metadata))).Nodup :=
+        fun g => nodup_dkeys_dictUpdate (nodup_dkeys_dictOfEntries _) _
+      have hmd : ∀ g ∈ rest, dictUpdate (X vis).mprops (dictOfEntries g.metadata)
+          = dictUpdate (X vis).mprops (dictOfEntries vo.metadata) := by
+        intro g hg
+        obtain ⟨_, hcase'⟩ := merge_at_output hw' hd hi (hrest g hg).1 (hrest g hg).2
+        rcases hcase' with ⟨hvn', _⟩ | ⟨vi', hvi', _, hM'⟩
+        · rw [hvi] at hvn'; cases hvn'
+        · rw [hvi] at hvi'
+          cases hvi'
+          have e := hsame g hg
+          rw [hM, hM'] at e
+          have e' := congrArg (fun x : ValueInfoP => dictOfEntries x.metadata) e
+          simp only [dictOfEntries_entriesOfDict _ (hnd _)] at e'
+          rw [e4]; exact e'
+      rw [foldl_applyInfoT_same (X vis) vo rest (fun g hg => ⟨(htd g hg).1, (htd g hg).2, hmd g hg⟩)]
+      simp only [hM]
       exact applyInfoT_merge _ _ vi vo e1 e2 e3 e4 e5
 
 theorem mprops_of_entry (vi : ValueInfoP) (h : wfVI vi = true) :
@@ -327,31 +415,57 @@ theorem mprops_of_entry (vi : ValueInfoP) (h : wfVI vi = true) :
 theorem tblFinal_merge
     (hw' : GraphWF inits inputs (mOutputs inits inputs outputs vis outs) (mVis inits inputs outputs vis outs)
       quant outs) :
-    tblFinal inits inputs outputs vis quant outs =
+    tblFinalAll inits inputs outputs vis quant outs =
       tblFinal inits inputs (mOutputs inits inputs outputs vis outs) (mVis inits inputs outputs vis outs)
         quant outs := by
   obtain ⟨_, _, hdisC⟩ := nodupNames_parts hw'
-  simp only [tblFinal, tblPre, List.map_append, List.map_map]
+  simp only [tblFinalAll, tblFinal, tblPre, List.map_append, List.map_map]
   congr 1
   · congr 1
-    · -- inputs: their output entry (pass-through) is not merged
+    · -- inputs: their output entries (pass-through) are not merged, hence identical
       apply List.map_congr_left
       intro vi hvi
       simp only [Function.comp]
-      rw [outUpd_mOutputs, outUpd_eq]
-      cases hf : outputs.find? (fun v => v.name = (constFrom inits (inputValT quant vi)).name) with
-      | none => rfl
+      have hM : ∀ vo ∈ outputs, vo.name = vi.name →
+          mergeOutVI (mDeclared inits outs) (inputs.map (·.name)) vis vo = vo := by
+        intro vo _ hvon
+        have hin : (inputs.map (·.name)).contains vo.name = true := by
+          rw [hvon]; simpa using List.mem_map_of_mem (f := fun v : ValueInfoP => v.name) hvi
+        have hma : mergeApplies (mDeclared inits outs) (inputs.map (·.name)) vo = false := by
+          simp only [mergeApplies, hin, Bool.not_true, Bool.and_false, Bool.false_and]
+        simp only [mergeOutVI, hma, Bool.false_eq_true, if_false]
+      rw [outUpd_mOutputs]
+      unfold outUpdAll
+      have hnm : (constFrom inits (inputValT quant vi)).name = vi.name := by simp
+      rw [hnm]
+      cases hf : outputs.find? (fun v => v.name = vi.name) with
+      | none =>
+        have : outputs.filter (fun v => v.name = vi.name) = [] := by
+          rw [List.filter_eq_nil_iff]
+          intro a ha
+          exact List.find?_eq_none.1 hf a ha
+        rw [this]; rfl
       | some vo =>
-        have hvon : vo.name = vi.name := by
-          have := List.find?_some hf
-          simpa using this
-        have : mergeOutVI (mDeclared inits outs) (inputs.map (·.name)) vis vo = vo := by
-          have hin : (inputs.map (·.name)).contains vo.name = true := by
-            rw [hvon]; simpa using List.mem_map_of_mem (f := fun v : ValueInfoP => v.name) hvi
-          have hma : mergeApplies (mDeclared inits outs) (inputs.map (·.name)) vo = false := by
-            simp only [mergeApplies, hin, Bool.not_true, Bool.and_false, Bool.false_and]
-          simp only [mergeOutVI, hma, Bool.false_eq_true, if_false]
-        simp only [this]
+        have hvon : vo.name = vi.name := by simpa using List.find?_some hf
+        have hvom : vo ∈ outputs := List.mem_of_find?_eq_some hf
+        simp only [hM vo hvom hvon]
+        have hall : ∀ x ∈ outputs.filter (fun v => v.name = vi.name), x = vo := by
+          intro x hx
+          obtain ⟨hx1, hx2⟩ := List.mem_filter.1 hx
+          have hxn : x.name = vi.name := by simpa using hx2
+          have := hw'.consOut _ (List.mem_map_of_mem hx1) _ (List.mem_map_of_mem hvom)
+            (by rw [mergeOutVI_name, mergeOutVI_name, hxn, hvon])
+          rwa [hM x hx1 hxn, hM vo hvom hvon] at this
+        have hmem : vo ∈ outputs.filter (fun v => v.name = vi.name) :=
+          List.mem_filter.2 ⟨hvom, by simpa using hvon⟩
+        have hrep := List.eq_replicate_iff.2 ⟨rfl, hall⟩
+        have hlen : (outputs.filter (fun v => v.name = vi.name)).length ≠ 0 := by
+          intro e
+          rw [List.length_eq_zero_iff] at e
+          rw [e] at hmem; cases hmem
+        obtain ⟨k, hk⟩ : ∃ k, (outputs.filter (fun v => v.name = vi.name)).length = k + 1 :=
+          ⟨_, (Nat.succ_pred_eq_of_ne_zero hlen).symm⟩
+        rw [hrep, hk, foldl_applyInfoT_replicate]
     · -- initializers that are not inputs
       apply List.map_congr_left
       intro p hp
